@@ -62,7 +62,7 @@ def run(run):
     # --- exact y = h x + n with supplied csi and noise (Gaussian integers)
     for (kname, mk, comp, _) in kinds:
         for shape in ((6,), (1, 6), (2, 5), (1, 2, 3), (2, 1, 2, 3)):        # including batches of one: the batch axis must survive
-            for cplx in (False, True):
+            for cplx, dbl in ((False, False), (True, False), (False, True), (True, True)):
                 n = 1
                 for d in shape:
                     n *= d
@@ -71,12 +71,15 @@ def run(run):
                 gi = lambda: rng.randint(-6, 6)
                 xs = [[gi(), gi() if cplx else 0] for _ in range(n)]
                 hs = [[gi(), gi()] for _ in range(n)]
-                ns = [[gi(), gi()] for _ in range(n)]
-                x = torch.tensor([complex(a, b) for a, b in xs], dtype=torch.complex64).reshape(shape) if cplx else torch.tensor([float(a) for a, _ in xs]).reshape(shape)
-                csi = torch.tensor([complex(a, b) for a, b in hs], dtype=torch.complex64).reshape(B, L)
-                noise = torch.tensor([complex(a, b) for a, b in ns], dtype=torch.complex64).reshape(B, L)
+                # double precision: the supplied noise carries integers beyond 2^24, which float64 / complex128 hold exactly and float32 does not
+                big = 33554433 if dbl else 0
+                ns = [[gi() + big, gi() - big] for _ in range(n)]
+                cdt, rdt = (torch.complex128, torch.float64) if dbl else (torch.complex64, torch.float32)
+                x = torch.tensor([complex(a, b) for a, b in xs], dtype=cdt).reshape(shape) if cplx else torch.tensor([float(a) for a, _ in xs], dtype=rdt).reshape(shape)
+                csi = torch.tensor([complex(a, b) for a, b in hs], dtype=cdt).reshape(B, L)
+                noise = torch.tensor([complex(a, b) for a, b in ns], dtype=cdt).reshape(B, L)
                 e = base_event()
-                cfg = {"fading": kname, "case": "exact", "ndim": len(shape), "complex": cplx}
+                cfg = {"fading": kname, "case": "exact", "ndim": len(shape), "complex": cplx, "precision": "double" if dbl else "single"}
                 try:
                     y = mk(3)(x, csi=csi, noise=noise)
                     e["shape_ok"] = tuple(y.shape) == tuple(shape)
@@ -87,7 +90,7 @@ def run(run):
                     run.violate(comp, "channel_raised", cfg, {"error": repr(ex)[:200]})
                     continue
                 add(e, comp, cfg)
-                run.case(("exact", kname, shape, cplx), nontrivial=True)
+                run.case(("exact", kname, shape, cplx, dbl), nontrivial=True)
     # --- block constancy for every T in 1..L (unit input, zero noise: y is the gain)
     Ls = (7, 12) if quick else (5, 7, 12, 16, 30, 64, 100)
     for (kname, mk, comp, _) in kinds:
